@@ -9,12 +9,16 @@ through the deprecated `wrapper`) on a chosen application graph and machine
 with SYMBOLIC net keys and masks (bit-vectors inside a W-bit window under a
 shared symbolic 32-bit prefix, well-formed, pairwise orthogonal), symbolic
 table targets and a symbolic set of dead links (one solver boolean per directed
-link, at most one dead).  The oracle then injects, for every net, a packet
-whose key `pk` is a further symbolic 32-bit value assumed to match the net's
-key/mask, and WALKS it over the final per-chip tables with the router
-semantics written down here (not rig's): first entry with pk & mask == key
-wins; an unmatched packet that arrived over a link leaves by the opposite
-link; an unmatched locally injected packet is dropped.  Which entry matches
+link, at most one dead).  Placement, allocation and routing run concretely on
+the chosen structure (every RNG outcome of the random placer, of the annealer's
+initial placement and of the router's tie-breaks being an explored choice);
+table generation and minimisation run on the symbolic keys.  The oracle then
+injects, for every net, a packet whose key `pk` is a further symbolic 32-bit
+value assumed to match the net's key/mask, and WALKS it over the final
+per-chip tables with the router semantics written down here (not rig's):
+first entry with pk & mask == key wins; an unmatched packet that arrived over
+a link leaves by the opposite link; an unmatched locally injected packet is
+dropped.  Which entry matches
 first is a solver-decided branch.  Proved on every path: the multiset of
 deliveries is exactly {every allocated core of every sink, once} + {the link of
 every endpoint-constrained sink, once}; every hop uses a link that is not dead
@@ -95,38 +99,48 @@ META = {
         "whose every outcome is explored or (units marked rng=N) "
         "random.Random(N); pin=n: the last n non-device vertices located on "
         "the last n working chips by LocationConstraints; router radius 0 or "
-        "20, every random tie-break of the router explored; minimisation in "
+        "20, every random tie-break of the router explored (units marked "
+        "tb=N: the first N undecided tie-breaks of a mapping are explored, "
+        "every later one takes its first feasible outcome); minimisation in "
         "{none, remove_default_routes, ordered_covering, the default "
-        "chain}; target lengths None, one symbolic integer per chip, or the "
-        "number of nets for every chip; the chain run by hand, through "
-        "place_and_route_wrapper (SystemInfo with the monitor on every chip "
-        "and one further busy core on the first chip, symbolic or concrete "
-        "free router entries per chip, concrete working links) or through "
-        "the deprecated wrapper.  SYMBOLIC (decided by the solver for all "
-        "values at once): every net's key and mask inside a window of W = 3 "
-        "low bits (W = 2 where the unit says so) under a shared symbolic "
-        "32-bit prefix P, the remaining 32-W mask bits set; the packet key "
-        "(any 32-bit value matching its net), one packet per net; the "
-        "per-chip table targets (0..nets+1) in the target=sym units (on 3x3 "
-        "only for the three chips of the diagonal, None elsewhere); in the "
-        "links=sym units the membership of every directed link of every "
-        "working chip in machine.dead_links, at most one dead (in addition "
-        "to a mesh's off-edge links and the device link); in the links=one "
-        "units one concretely chosen dead link (none, or every directed "
-        "link in turn).  The cross product of the menus is NOT explored "
-        "inside one unit: a unit fixes (graph, machine, placer, method, "
-        "radius, target mode, link mode, dead-chip mode, demand patterns, W, "
-        "cap, pin, entry point) and its name in the evidence says which.  "
-        "thorough = every (graph, machine, placer, method) combination of "
-        "{6 graphs} x {1x1, 2x2, 3x3} x {mesh, torus} x {6 placers} x {4 "
-        "methods} by hand with the other dimensions rotated by a stable hash "
-        "and shrunk until the unit has an estimated <= 600 paths (order: "
-        "links one -> sym, dead chip, demand patterns, symbolic target, "
-        "links, W 3 -> 2, pins, real RNG), plus both wrappers with every "
-        "placer on 2x2 and 3x3, plus four full-window (W = 3) three-net "
-        "ordered-covering units, plus the quick core set; quick = a fixed "
-        "core set of 22 units plus a VERIF_SEED-selected subset of the 1x1 / "
-        "2x2 grid (~50 units, ~6 000 paths).",
+        "chain}; target lengths None, one symbolic integer per chip "
+        "(target=sym; on 3x3 only for the three chips of the diagonal, None "
+        "elsewhere), a symbolic integer for the first working chip only "
+        "(target=sym1), or the number of nets for every chip (target=n); "
+        "the chain run by hand, through place_and_route_wrapper (SystemInfo "
+        "with the monitor on every chip and one further busy core on the "
+        "first chip, symbolic or concrete free router entries per chip, "
+        "concrete working links) or through the deprecated wrapper.  "
+        "SYMBOLIC (decided by the solver for all values at once): every "
+        "net's key and mask inside a window of W = 3 low bits (W = 2 where "
+        "the unit says so) under a shared symbolic 32-bit prefix P, the "
+        "remaining 32-W mask bits set; the packet key (any 32-bit value "
+        "matching its net), one packet per net; the table targets "
+        "(0..nets+1); in the links=sym units the membership of every "
+        "directed link of every working chip in machine.dead_links, at most "
+        "one dead (in addition to a mesh's off-edge links and the device "
+        "link); in the links=one units one concretely chosen dead link "
+        "(none, or every directed link in turn).  The cross product of the "
+        "menus is NOT explored inside one unit: a unit fixes (graph, "
+        "machine, placer, method, radius, target mode, link mode, dead-chip "
+        "mode, demand patterns, W, cap, pin, rng, tb, entry point) and its "
+        "name in the evidence says which.  thorough (1010 units, ~88 000 "
+        "paths) = every combination of {6 graphs} x {1x1, 2x2, 3x3} x "
+        "{mesh, torus} x {6 placers} x {4 methods} by hand, plus both "
+        "wrappers with every placer on 2x2 and 3x3 (120 units), plus four "
+        "full-window (W = 3) three-net ordered-covering units, plus the "
+        "quick core set; the other dimensions are rotated by a stable hash "
+        "and then reduced: units with ordered covering (oc, chain) take one "
+        "demand pattern, no dead chip, no dead link (two-net graphs with W = "
+        "2: links=sym in half of them), W = 2 for three nets or 3x3, target "
+        "in {None, sym1 (sym on 1x1)}, tb=3 on a torus; the other units "
+        "start from all three demand patterns, deadchip=any, links in "
+        "{none, sym, one} and target in {None, sym, n} and are shrunk until "
+        "an estimated <= 800 paths remain (order: links one -> sym, dead "
+        "chip, demand patterns, links, symbolic target, pins, tb=4, real "
+        "RNG); every unit on a 3x3 torus has tb <= 5.  quick = a fixed core "
+        "set of 22 units plus a VERIF_SEED-selected subset of the 1x1 / 2x2 "
+        "grid (~45-50 units, ~5 000 paths).",
     "stubs": [
         "machine.dead_links is harness.c03.SymLinkSet in the links=sym units "
         "(one solver boolean per directed link under 'at most 1 dead'; "
@@ -142,7 +156,10 @@ META = {
         "parts are both 0 are ordered by creation instead of by a solver "
         "branch: the sort is descending and the loop stops at the first zero "
         "magnitude, so the order of zero dimensions cannot reach the result "
-        "(C03 explores those ties as well)",
+        "(C03 explores those ties as well).  Units marked tb=N: after N "
+        "undecided tie-breaks in one mapping every further random() "
+        "comparison is resolved to its first feasible outcome (assumed, not "
+        "forked) and randint/choice return their first alternative",
         "rand.place / sa.place get random=harness.c02.SymRandom (shuffle, "
         "sample, choice, randint enumerate every outcome) or, in the units "
         "marked rng=N, random.Random(N)",
@@ -194,12 +211,16 @@ META = {
         "the annealer with effort > 0 (floating-point schedule) and the C "
         "kernel",
         "combinations of the secondary dimensions that are not a unit.  In "
-        "particular: three-net graphs under ordered covering use W = 2 except "
-        "in four W = 3 units; a symbolic target under ordered covering uses W "
-        "= 2 on machines of more than one chip; sa on 3x3 and the costliest "
-        "rand/sa x ordered-covering combinations run with random.Random(N) "
+        "particular: three-net graphs under ordered covering use W = 2 "
+        "except in four W = 3 units (1x1, 1x3, 2x2 meshes); ordered covering "
+        "on 3x3 uses W = 2; a symbolic target under ordered covering is put "
+        "on one chip only (all chips in two 2x2 core units); sa on 3x3 "
+        "and the costliest rand/sa combinations run with random.Random(N) "
         "(one RNG outcome) instead of every outcome; rand/sa with every "
-        "outcome have all but 1-3 vertices pinned on 2x2/3x3",
+        "outcome have all but 1-3 vertices pinned on 2x2/3x3; router "
+        "tie-breaks beyond the first 3-5 of a mapping are not explored on a "
+        "3x3 torus and under ordered covering on a 2x2 torus (C03 explores "
+        "the router's tie-breaks exhaustively)",
         "ties between zero-magnitude dimensions in longest_dimension_first "
         "(see stubs)",
         "set iteration orders other than CPython 3.12's with "
